@@ -57,6 +57,8 @@ fixed("C06","C06/ttl/omitted-uses-$TTL/ttl-class/generate","c4c1c70","records pr
 fixed("C06","C06/parse-error/owner-only-escaped-specials","ce2e7fa","an entry whose owner (or any token) consists only of escaped special characters (e.g. the owner \\; ) was rejected with 'no blank after owner': the lexer did not end the run of blanks for escaped characters")
 fixed("C06","C06/parse-error/mnemonic-like-token-after-comment-in-parentheses","603cf10","a comment inside parentheses reset the lexer's 'type seen' flag, so a following RDATA token spelling a type/class mnemonic (base64 chunk AAAA) was lexed as a type and the record rejected")
 fixed("C06","C06/keyword-like-token/origin-relative/a","7b7f089","a relative $ORIGIN value that spells a type mnemonic (a, mx, ns, soa, txt, aaaa, any) was rejected, and such an origin argument of $INCLUDE was silently ignored (included records completed with the wrong origin)")
+# ---- C07
+fixed("C07","C07/error-line-out-of-range/mutation","de58904","a zone text ending right after a $GENERATE range ('$GENERATE 13-17<EOF>') was reported as 'garbage after $GENERATE range: \"\" at line: 0:0': the end-of-input token carries no position")
 # ---- C11
 fixed("C11","C11/accepts-altered/field/fudge-zero","a6d820e","TsigVerify substituted the default fudge 300 (and the current time) for a zero fudge / time signed found in the received TSIG, so a message whose fudge was changed from 300 to 0 still verified")
 # ---- C13
